@@ -171,6 +171,63 @@ impl FromStr for InputList {
     }
 }
 
+/// The byte range of the document type declaration in the prolog of `data`, if it has
+/// one which is complete: quoted literals, comments and processing instructions in
+/// it may hold any character, '<', '>' and ']' included.
+fn find_doctype(data: &[u8]) -> Option<(usize, usize)> {
+    let starts_with = |pos: usize, what: &[u8]| data[pos.min(data.len())..].starts_with(what);
+    let skip_past = |pos: usize, what: &[u8]| {
+        (pos..data.len())
+            .find(|p| starts_with(*p, what))
+            .map(|p| p + what.len())
+    };
+    // the prolog: byte-order mark, white space, XML declaration, comments, PIs
+    let mut pos = if starts_with(0, b"\xEF\xBB\xBF") {
+        3
+    } else {
+        0
+    };
+    let start = loop {
+        if pos >= data.len() {
+            return None;
+        } else if data[pos].is_ascii_whitespace() {
+            pos += 1;
+        } else if starts_with(pos, b"<!--") {
+            pos = skip_past(pos + 4, b"-->")?;
+        } else if starts_with(pos, b"<?") {
+            pos = skip_past(pos + 2, b"?>")?;
+        } else if starts_with(pos, b"<!DOCTYPE") {
+            break pos;
+        } else {
+            return None;
+        }
+    };
+    pos = start + "<!DOCTYPE".len();
+    let mut in_subset = false;
+    while pos < data.len() {
+        match data[pos] {
+            quote @ (b'"' | b'\'') => {
+                pos = skip_past(pos + 1, &[quote])?;
+                continue;
+            }
+            b'<' if starts_with(pos, b"<!--") => {
+                pos = skip_past(pos + 4, b"-->")?;
+                continue;
+            }
+            b'<' if starts_with(pos, b"<?") => {
+                pos = skip_past(pos + 2, b"?>")?;
+                continue;
+            }
+            b'[' => in_subset = true,
+            b']' => in_subset = false,
+            b'>' if !in_subset => return Some((start, pos + 1)),
+            _ => {}
+        }
+        pos += 1;
+    }
+    None
+}
+
 impl InputList {
     pub fn new() -> Self {
         Self { events: vec![] }
@@ -205,7 +262,14 @@ impl InputList {
         // (e.g. a byte-order mark split across two reads is not recognised).
         let mut data = Vec::new();
         reader.read_to_end(&mut data)?;
-        let mut reader = Reader::from_reader(data.as_slice());
+        // The XML reader finds the end of a DOCTYPE by counting '<' and '>', whatever
+        // they stand in (a comment, a quoted literal): the DOCTYPE is found here, and
+        // what precedes and what follows it is read separately.
+        let doctype = find_doctype(&data);
+        let segments: Vec<&[u8]> = match doctype {
+            Some((start, end)) => vec![&data[..start], &data[end..]],
+            None => vec![data.as_slice()],
+        };
 
         let mut events = Vec::new();
         let mut buf = Vec::new();
@@ -216,82 +280,101 @@ impl InputList {
         let mut src_line = 1;
         let mut indent = 0;
         let mut index = 0;
-        loop {
-            let ev = reader.read_event_into(&mut buf);
-            let event_lines = if let Ok(ok_ev) = ev.clone() {
-                ok_ev.as_ref().iter().filter(|&c| *c == b'\n').count()
-            } else {
-                0
-            };
-            // Everything downstream assumes UTF-8; check once here rather than at each use.
-            if let Ok(ok_ev) = &ev {
-                if std::str::from_utf8(ok_ev.as_ref()).is_err() {
-                    return Err(SvgdxError::ParseError(format!(
-                        "Input is not valid UTF-8 near line {src_line}"
-                    )));
-                }
-            }
-            match &ev {
-                Ok(Event::Eof) => break, // exits the loop when reaching end of file
-                Ok(Event::Text(t)) => {
-                    let mut t_str = String::from_utf8(t.to_vec())?;
-                    if let Some((_, rest)) = t_str.rsplit_once('\n') {
-                        t_str = rest.to_string();
-                    }
-                    indent = t_str.len() - t_str.trim_end_matches(' ').len();
-
-                    events.push(InputEvent {
-                        event: ev.expect("match").into_owned(),
-                        index,
-                        line: src_line,
-                        indent,
-                        alt_idx: None,
-                        evaluated: false,
-                    });
-                }
-                Ok(Event::Start(_)) => {
-                    events.push(InputEvent {
-                        event: ev.expect("match").into_owned(),
-                        index,
-                        line: src_line,
-                        indent,
-                        alt_idx: None,
-                        evaluated: false,
-                    });
-                    event_idx_stack.push(index);
-                }
-                Ok(Event::End(_)) => {
-                    let start_idx = event_idx_stack.pop();
-                    if let Some(start_idx) = start_idx {
-                        events[start_idx].alt_idx = Some(index);
-                    }
-                    events.push(InputEvent {
-                        event: ev.expect("match").into_owned(),
-                        index,
-                        line: src_line,
-                        indent,
-                        alt_idx: start_idx,
-                        evaluated: false,
-                    });
-                }
-                Ok(e) => events.push(InputEvent {
-                    event: e.clone().into_owned(),
+        for (segment_idx, segment) in segments.into_iter().enumerate() {
+            if let (1, Some((start, end))) = (segment_idx, doctype) {
+                let content = &data[start + "<!DOCTYPE".len()..end - 1];
+                let content = std::str::from_utf8(content).map_err(|_| {
+                    SvgdxError::ParseError(format!("Input is not valid UTF-8 near line {src_line}"))
+                })?;
+                events.push(InputEvent {
+                    event: Event::DocType(BytesText::from_escaped(content.trim_start().to_owned())),
                     index,
                     line: src_line,
                     indent,
                     alt_idx: None,
                     evaluated: false,
-                }),
-                Err(e) => {
-                    return Err(SvgdxError::ParseError(format!(
-                        "XML error near line {src_line}: {e:?}"
-                    )))
-                }
+                });
+                src_line += content.bytes().filter(|c| *c == b'\n').count();
+                index += 1;
             }
+            let mut reader = Reader::from_reader(segment);
+            loop {
+                let ev = reader.read_event_into(&mut buf);
+                let event_lines = if let Ok(ok_ev) = ev.clone() {
+                    ok_ev.as_ref().iter().filter(|&c| *c == b'\n').count()
+                } else {
+                    0
+                };
+                // Everything downstream assumes UTF-8; check once here rather than at each use.
+                if let Ok(ok_ev) = &ev {
+                    if std::str::from_utf8(ok_ev.as_ref()).is_err() {
+                        return Err(SvgdxError::ParseError(format!(
+                            "Input is not valid UTF-8 near line {src_line}"
+                        )));
+                    }
+                }
+                match &ev {
+                    Ok(Event::Eof) => break, // exits the loop when reaching end of file
+                    Ok(Event::Text(t)) => {
+                        let mut t_str = String::from_utf8(t.to_vec())?;
+                        if let Some((_, rest)) = t_str.rsplit_once('\n') {
+                            t_str = rest.to_string();
+                        }
+                        indent = t_str.len() - t_str.trim_end_matches(' ').len();
 
-            src_line += event_lines;
-            index += 1;
-            buf.clear();
+                        events.push(InputEvent {
+                            event: ev.expect("match").into_owned(),
+                            index,
+                            line: src_line,
+                            indent,
+                            alt_idx: None,
+                            evaluated: false,
+                        });
+                    }
+                    Ok(Event::Start(_)) => {
+                        events.push(InputEvent {
+                            event: ev.expect("match").into_owned(),
+                            index,
+                            line: src_line,
+                            indent,
+                            alt_idx: None,
+                            evaluated: false,
+                        });
+                        event_idx_stack.push(index);
+                    }
+                    Ok(Event::End(_)) => {
+                        let start_idx = event_idx_stack.pop();
+                        if let Some(start_idx) = start_idx {
+                            events[start_idx].alt_idx = Some(index);
+                        }
+                        events.push(InputEvent {
+                            event: ev.expect("match").into_owned(),
+                            index,
+                            line: src_line,
+                            indent,
+                            alt_idx: start_idx,
+                            evaluated: false,
+                        });
+                    }
+                    Ok(e) => events.push(InputEvent {
+                        event: e.clone().into_owned(),
+                        index,
+                        line: src_line,
+                        indent,
+                        alt_idx: None,
+                        evaluated: false,
+                    }),
+                    Err(e) => {
+                        return Err(SvgdxError::ParseError(format!(
+                            "XML error near line {src_line}: {e:?}"
+                        )))
+                    }
+                }
+
+                src_line += event_lines;
+                index += 1;
+                buf.clear();
+            }
         }
 
         Ok(Self { events })
